@@ -302,52 +302,61 @@ fn get_match_statically_known(
     provider.query_variable = &query_variable;
     provider.query_function = &asm::resolver::get_statically_known_builtin_fn;
 
+    // Arguments are written in the scope of the instruction,
+    // where the rule's parameters are not visible
+    let mut arg_provider = expr::StaticallyKnownProvider::new();
+    arg_provider.query_variable = &query_variable;
+    arg_provider.query_function = &asm::resolver::get_statically_known_builtin_fn;
+
     for i in 0..rule.parameters.len()
     {
         let param = &rule.parameters[i];
         let arg = &mtch.args[i];
 
-        match param.typ
-        {
-            asm::RuleParameterType::Unspecified |
-            asm::RuleParameterType::Integer(_) |
-            asm::RuleParameterType::Unsigned(_) |
-            asm::RuleParameterType::Signed(_) =>
+        // A parameter always shadows a symbol of the same name,
+        // whether or not its value is statically known
+        let value_known = {
+            match param.typ
             {
-                if let InstructionArgumentKind::Expr(ref arg_expr) = arg.kind
+                asm::RuleParameterType::Unspecified |
+                asm::RuleParameterType::Integer(_) |
+                asm::RuleParameterType::Unsigned(_) |
+                asm::RuleParameterType::Signed(_) =>
                 {
-                    if arg_expr.is_value_statically_known(&provider)
+                    if let InstructionArgumentKind::Expr(ref arg_expr) = arg.kind
                     {
-                        provider.locals.insert(
-                            param.name.clone(),
-                            expr::StaticallyKnownLocal {
-                                value_known: true,
-                                ..expr::StaticallyKnownLocal::new()
-                            });
+                        arg_expr.is_value_statically_known(&arg_provider)
+                    }
+                    else
+                    {
+                        false
                     }
                 }
-            }
 
-            asm::RuleParameterType::RuledefRef(_) =>
-            {
-                if let asm::InstructionArgumentKind::Nested(ref nested_match) = arg.kind
+                asm::RuleParameterType::RuledefRef(_) =>
                 {
-                    if get_match_statically_known(
-                        decls,
-                        defs,
-                        symbol_ctx,
-                        nested_match)
+                    if let asm::InstructionArgumentKind::Nested(ref nested_match) = arg.kind
                     {
-                        provider.locals.insert(
-                            param.name.clone(),
-                            expr::StaticallyKnownLocal {
-                                value_known: true,
-                                ..expr::StaticallyKnownLocal::new()
-                            });
+                        get_match_statically_known(
+                            decls,
+                            defs,
+                            symbol_ctx,
+                            nested_match)
+                    }
+                    else
+                    {
+                        false
                     }
                 }
             }
-        }
+        };
+
+        provider.locals.insert(
+            param.name.clone(),
+            expr::StaticallyKnownLocal {
+                value_known,
+                ..expr::StaticallyKnownLocal::new()
+            });
     }
 
     rule.expr.is_value_statically_known(&provider)
